@@ -384,7 +384,7 @@ func (api *modAPI[T, PT]) runCommon(r *mon.Run, nBin, nUn, nSel, nDec int) {
 		}
 	})
 
-	r.Require(api.name+":sel:ctrl=0", api.name+":sel:ctrl!=0", api.name+":pred:equal", api.name+":pred:unequal-one-limb")
+	r.Require(api.name+":sel:ctrl=0", api.name+":sel:ctrl!=0", api.name+":pred:equal", api.name+":pred:unequal-one-limb", api.name+":pred:half-word-structured-difference")
 	r.Each(api.name+"/select+predicates", nSel, func(w *mon.W, i int) {
 		rng := w.Rng
 		a, _ := rng.Value(m)
@@ -398,6 +398,34 @@ func (api *modAPI[T, PT]) runCommon(r *mon.Run, nBin, nUn, nSel, nDec int) {
 			if bm.Cmp(m) < 0 {
 				b = oracle.FromMont(bm, m)
 				w.Class(api.name + ":pred:unequal-one-limb")
+			}
+		}
+		if rng.Chance(1, 6) {
+			// the stored (Montgomery) forms are zero / equal except for ONE limb, which holds
+			// a word with related 32-bit halves (halves summing to 2^32, equal halves, ...):
+			// what a predicate folded over register pairs must still tell from zero
+			var l [4]uint64
+			l[rng.Intn(4)] = rng.HalfWord()
+			if rng.Bool() {
+				l[rng.Intn(4)] |= rng.HalfWord()
+			}
+			if d := oracle.FromLimbs(l); d.Cmp(m) < 0 {
+				if rng.Bool() {
+					a, b = oracle.FromMont(d, m), big.NewInt(0)
+				} else {
+					am := oracle.ToMont(a, m)
+					al := oracle.Limbs(am)
+					for j := range al {
+						al[j] ^= l[j]
+					}
+					if bm := oracle.FromLimbs(al); bm.Cmp(m) < 0 {
+						b = oracle.FromMont(bm, m)
+					}
+				}
+				if rng.Bool() {
+					a, b = b, a
+				}
+				w.Class(api.name + ":pred:half-word-structured-difference")
 			}
 		}
 		if rng.Chance(1, 5) {
@@ -442,6 +470,9 @@ func (api *modAPI[T, PT]) runCommon(r *mon.Run, nBin, nUn, nSel, nDec int) {
 		}
 		if g := ea.IsZero(); g != boolU64(a.Sign() == 0) {
 			w.Fail(api.name+"/IsZero", fmt.Sprintf("%s.IsZero(%x) = %d", api.name, a, g), "a", hb(a))
+		}
+		if g := eb.IsZero(); g != boolU64(b.Sign() == 0) {
+			w.Fail(api.name+"/IsZero", fmt.Sprintf("%s.IsZero(%x) = %d", api.name, b, g), "a", hb(b))
 		}
 		z, o := api.newT(), api.newT()
 		api.rawSet(z, [4]uint64{1, 2, 3, 4}) // dirty first (no-op without hooks)
